@@ -89,7 +89,9 @@ St == [ s \in States |->
             size |-> SizeOf(Flat0.tab, s) ] ]
 
 Par(s)      == St[s].parent
-Kid(s, p)   == St[s].kids[p]
+\* an invalid prong lands on the LAST sub-state (the binary dispatch `prong < R_PRONG` of CS_ falls right);
+\* only reachable from ill-formed configurations
+Kid(s, p)   == St[s].kids[IF p = 0 THEN St[s].width ELSE p]
 IsRegion(s) == St[s].kind # "S"
 \* a state that has user callbacks (anonymous heads of *Peers regions have none)
 HasUser(s)  == St[s].headed
